@@ -124,6 +124,9 @@ type Enc struct {
 	nEntryAsm  int
 	groupTail  []*Oblig
 	atVars     map[string]SV
+	labels     map[string]*State
+	atArgTypes []types.Type
+	atResTypes []types.Type
 	siteOrd    map[ssa.Instruction]int
 	curInstr   ssa.Instruction
 	callLog    map[string]SV
